@@ -132,7 +132,9 @@ impl Server {
     pub fn handle_did_change_text_document(&mut self, params: DidChangeTextDocumentParams) {
         self.database.update_document(
             self.base_path.url_to_key(&params.text_document.uri.clone()),
-            params.content_changes.first().unwrap().text.clone(),
+            // full-text sync: every change carries the whole text and they apply in order,
+            // so the last one is the document
+            params.content_changes.last().unwrap().text.clone(),
         );
     }
 
